@@ -401,6 +401,299 @@ example (sc : Scripts) : (exec sc 1 (.ops 1 none [.err])
     (emit { World.init with catching := World.init.catching + 1 } s!"ctb {oid 1}")).out = .err := by
   simp [exec, raise, R.andThen]
 
+/-- **exec_stable.**  Inside one well-formed task no object is un-allocated, every allocated object keeps its name and a
+    destructed object stays destructed - whatever the hooks do. -/
+theorem exec_stable (sc : Scripts) (f : Nat) (t : Task) (w : World) (hI : WorldInv w.c) (ht : TaskWf w.c t)
+    (hwf : WorldWf w) (hg : w.initBad = false) :
+    w.c.n ≤ (exec sc f t w).w.c.n ∧
+    (∀ i, i < w.c.n → ((exec sc f t w).w.c.objs i).name = (w.c.objs i).name) ∧
+    (∀ i, i < w.c.n → (w.c.objs i).destructed = true → ((exec sc f t w).w.c.objs i).destructed = true) :=
+  let g := exec_good sc f t w hI ht hwf hg
+  ⟨g.le.le, g.le.name, g.le.dead⟩
+
+set_option linter.unusedSimpArgs false in
+set_option linter.unusedVariables false in
+/-- what find_or_load_object / load_object hands back: an allocated object that carries the requested name - through
+    the lookup, the plain load, the inherit detour with its re-lookup and the reload, whatever the create() hooks of the
+    inherited program and of the object itself do; with the `*sigh*` test (strict) it is also not destructed -/
+theorem load_val_named (sc : Scripts) : ∀ (f : Nat) (b : Base) (strict : Bool) (w : World), Inv w.c → WorldWf w →
+    w.initBad = false → (exec sc f (.load b strict) w).out = .ok → ∀ i, (exec sc f (.load b strict) w).val = some i →
+    i < (exec sc f (.load b strict) w).w.c.n ∧
+    ((exec sc f (.load b strict) w).w.c.objs i).name = { base := b, num := none } ∧
+    (strict = true → ((exec sc f (.load b strict) w).w.c.objs i).destructed = false) := by
+  intro f
+  induction f with
+  | zero => intro b strict w _ _ _ h; simp [exec] at h
+  | succ f ih =>
+    intro b strict w hI hwf hg
+    have hl := lookupC_inv { base := b, num := none } hI
+    have hn0 := lookupC_n w.c { base := b, num := none }
+    -- the last step: the strict filter
+    have hfin : ∀ (r : R), (r.out = .ok → ∀ i, r.val = some i → i < r.w.c.n ∧ (r.w.c.objs i).name = { base := b, num := none }) →
+        let r' := r.andThen fun w v => match v with
+          | none => ({ w := w, val := none } : R)
+          | some ob => if strict = true ∧ (w.c.objs ob).destructed = true then { w := w, val := none } else { w := w, val := some ob }
+        r'.out = .ok → ∀ i, r'.val = some i → i < r'.w.c.n ∧ (r'.w.c.objs i).name = { base := b, num := none } ∧
+          (strict = true → (r'.w.c.objs i).destructed = false) := by
+      intro r hr
+      simp only [R.andThen]
+      by_cases hok : r.out = .ok
+      · simp only [hok, if_true]
+        cases hv : r.val with
+        | none => intro _ i h; simp at h
+        | some ob =>
+          have := hr hok ob hv
+          simp only []
+          split
+          · intro _ i h; simp at h
+          · rename_i hns
+            intro _ i h
+            simp at h
+            subst h
+            refine ⟨this.1, this.2, fun hs => ?_⟩
+            cases hd : (r.w.c.objs ob).destructed with
+            | false => rfl
+            | true => exact absurd ⟨hs, hd⟩ hns
+      · intro h; simp [hok] at h
+    cases b with
+    | nofile =>
+      simp only [exec]
+      split
+      · intro h; simp [crashR] at h
+      · split
+        · rename_i i hsome
+          have := (lookupC_spec hI _ i).mp hsome
+          intro _ j hj
+          simp at hj; subst hj
+          simp only [hn0.1, hn0.2]
+          exact ⟨this.1, this.2.2, fun _ => this.2.1⟩
+        · split
+          · intro h; simp [raise] at h
+          · refine hfin _ ?_
+            intro _ i h; simp at h
+    | badfile =>
+      simp only [exec]
+      split
+      · intro h; simp [crashR] at h
+      · split
+        · rename_i i hsome
+          have := (lookupC_spec hI _ i).mp hsome
+          intro _ j hj
+          simp at hj; subst hj
+          simp only [hn0.1, hn0.2]
+          exact ⟨this.1, this.2.2, fun _ => this.2.1⟩
+        · split
+          · intro h; simp [raise] at h
+          · refine hfin _ ?_
+            intro h; simp [raise] at h
+    | bp k =>
+      simp only [exec]
+      split
+      · intro h; simp [crashR] at h
+      · split
+        · rename_i i hsome
+          have := (lookupC_spec hI _ i).mp hsome
+          intro _ j hj
+          simp at hj; subst hj
+          simp only [hn0.1, hn0.2]
+          exact ⟨this.1, this.2.2, fun _ => this.2.1⟩
+        · rename_i hnone
+          have hsame := lookupC_none_core hnone
+          have hfree := lookupC_none_free hI hnone
+          split
+          · intro h; simp [raise] at h
+          · refine hfin _ ?_
+            have hA := nfle_alloc (cl := false) (nm := { base := .bp k, num := none }) hI hfree
+            have hAI := alloc_inv (cl := false) (nm := { base := .bp k, num := none }) hI hfree (by simp)
+            have hAe := alloc_eq (cl := false) (nm := { base := .bp k, num := none }) hI hfree
+            rw [hsame]
+            intro hok i hv
+            have g1 := exec_good sc f (.hook (alloc w.c { base := .bp k, num := none } false).2 .create none)
+              { w with c := (alloc w.c { base := .bp k, num := none } false).1, ldepth := w.ldepth + 1 } (by exact hAI) ⟨hA.2, by intro y h; cases h⟩
+              (fun g hgg => hA.1 g (hwf g hgg)) (by exact hg)
+            generalize exec sc f (.hook (alloc w.c { base := .bp k, num := none } false).2 .create none)
+              { w with c := (alloc w.c { base := .bp k, num := none } false).1, ldepth := w.ldepth + 1 } = r1 at hok hv g1 ⊢
+            simp only [R.andThen] at hok hv ⊢
+            by_cases h1 : r1.out = .ok
+            · simp only [h1, if_true] at hok hv ⊢
+              simp at hv
+              subst hv
+              refine ⟨(g1.le.nf _ hA.2).1, ?_⟩
+              show (r1.w.c.objs (alloc w.c { base := .bp k, num := none } false).2).name = _
+              rw [g1.le.name _ hA.2.1]
+              rw [hAe]; simp [allocCore]
+            · simp [h1] at hok
+    | master =>
+      simp only [exec]
+      split
+      · intro h; simp [crashR] at h
+      · split
+        · rename_i i hsome
+          have := (lookupC_spec hI _ i).mp hsome
+          intro _ j hj
+          simp at hj; subst hj
+          simp only [hn0.1, hn0.2]
+          exact ⟨this.1, this.2.2, fun _ => this.2.1⟩
+        · rename_i hnone
+          have hsame := lookupC_none_core hnone
+          have hfree := lookupC_none_free hI hnone
+          split
+          · intro h; simp [raise] at h
+          · refine hfin _ ?_
+            have hA := nfle_alloc (cl := false) (nm := { base := .master, num := none }) hI hfree
+            have hAI := alloc_inv (cl := false) (nm := { base := .master, num := none }) hI hfree (by simp)
+            have hAe := alloc_eq (cl := false) (nm := { base := .master, num := none }) hI hfree
+            rw [hsame]
+            intro hok i hv
+            have g1 := exec_good sc f (.hook (alloc w.c { base := .master, num := none } false).2 .create none)
+              { w with c := (alloc w.c { base := .master, num := none } false).1, ldepth := w.ldepth + 1 } (by exact hAI) ⟨hA.2, by intro y h; cases h⟩
+              (fun g hgg => hA.1 g (hwf g hgg)) (by exact hg)
+            generalize exec sc f (.hook (alloc w.c { base := .master, num := none } false).2 .create none)
+              { w with c := (alloc w.c { base := .master, num := none } false).1, ldepth := w.ldepth + 1 } = r1 at hok hv g1 ⊢
+            simp only [R.andThen] at hok hv ⊢
+            by_cases h1 : r1.out = .ok
+            · simp only [h1, if_true] at hok hv ⊢
+              simp at hv
+              subst hv
+              refine ⟨(g1.le.nf _ hA.2).1, ?_⟩
+              show (r1.w.c.objs (alloc w.c { base := .master, num := none } false).2).name = _
+              rw [g1.le.name _ hA.2.1]
+              rw [hAe]; simp [allocCore]
+            · simp [h1] at hok
+    | simul =>
+      simp only [exec]
+      split
+      · intro h; simp [crashR] at h
+      · split
+        · rename_i i hsome
+          have := (lookupC_spec hI _ i).mp hsome
+          intro _ j hj
+          simp at hj; subst hj
+          simp only [hn0.1, hn0.2]
+          exact ⟨this.1, this.2.2, fun _ => this.2.1⟩
+        · rename_i hnone
+          have hsame := lookupC_none_core hnone
+          have hfree := lookupC_none_free hI hnone
+          split
+          · intro h; simp [raise] at h
+          · refine hfin _ ?_
+            have hA := nfle_alloc (cl := false) (nm := { base := .simul, num := none }) hI hfree
+            have hAI := alloc_inv (cl := false) (nm := { base := .simul, num := none }) hI hfree (by simp)
+            have hAe := alloc_eq (cl := false) (nm := { base := .simul, num := none }) hI hfree
+            rw [hsame]
+            intro hok i hv
+            have g1 := exec_good sc f (.hook (alloc w.c { base := .simul, num := none } false).2 .create none)
+              { w with c := (alloc w.c { base := .simul, num := none } false).1, ldepth := w.ldepth + 1 } (by exact hAI) ⟨hA.2, by intro y h; cases h⟩
+              (fun g hgg => hA.1 g (hwf g hgg)) (by exact hg)
+            generalize exec sc f (.hook (alloc w.c { base := .simul, num := none } false).2 .create none)
+              { w with c := (alloc w.c { base := .simul, num := none } false).1, ldepth := w.ldepth + 1 } = r1 at hok hv g1 ⊢
+            simp only [R.andThen] at hok hv ⊢
+            by_cases h1 : r1.out = .ok
+            · simp only [h1, if_true] at hok hv ⊢
+              simp at hv
+              subst hv
+              refine ⟨(g1.le.nf _ hA.2).1, ?_⟩
+              show (r1.w.c.objs (alloc w.c { base := .simul, num := none } false).2).name = _
+              rw [g1.le.name _ hA.2.1]
+              rw [hAe]; simp [allocCore]
+            · simp [h1] at hok
+    | ih k =>
+      simp only [exec]
+      split
+      · intro h; simp [crashR] at h
+      · split
+        · rename_i i hsome
+          have := (lookupC_spec hI _ i).mp hsome
+          intro _ j hj
+          simp at hj; subst hj
+          simp only [hn0.1, hn0.2]
+          exact ⟨this.1, this.2.2, fun _ => this.2.1⟩
+        · rename_i hnone
+          have hsame := lookupC_none_core hnone
+          have hfree := lookupC_none_free hI hnone
+          have hlB := lookupC_inv { base := .bp k, num := none } hl
+          have hleB := nfle_lookupC (lookupC w.c { base := .ih k, num := none }).1 { base := .bp k, num := none }
+          have hle1 := nfle_lookupC w.c { base := .ih k, num := none }
+          have hnB := lookupC_n (lookupC w.c { base := .ih k, num := none }).1 { base := .bp k, num := none }
+          have hwf2 : ∀ g, w.cg = some g → NF (lookupC (lookupC w.c { base := .ih k, num := none }).1 { base := .bp k, num := none }).1 g :=
+            fun g hgg => hleB g (hle1 g (hwf g hgg))
+          split
+          · intro h; simp [raise] at h
+          · refine hfin _ ?_
+            split
+            · rename_i r hr
+              split at hr
+              · cases hr; intro h; simp [crashR] at h
+              · split at hr
+                · cases hr
+                · cases hr
+                  intro hok i hv
+                  have gA := exec_good sc f (.load (.bp k) false)
+                    { w with c := (lookupC (lookupC w.c { base := .ih k, num := none }).1 { base := .bp k, num := none }).1, ldepth := w.ldepth + 1 }
+                    (by exact hlB) trivial (by exact hwf2) (by exact hg)
+                  have hIA := exec_inv sc f (.load (.bp k) false)
+                    { w with c := (lookupC (lookupC w.c { base := .ih k, num := none }).1 { base := .bp k, num := none }).1, ldepth := w.ldepth + 1 }
+                    (by exact hlB)
+                  generalize exec sc f (.load (.bp k) false)
+                    { w with c := (lookupC (lookupC w.c { base := .ih k, num := none }).1 { base := .bp k, num := none }).1, ldepth := w.ldepth + 1 } = rA at hok hv gA hIA ⊢
+                  simp only [R.andThen] at hok hv ⊢
+                  by_cases hA1 : rA.out = .ok
+                  · simp only [hA1, if_true] at hok hv ⊢
+                    cases hvA : rA.val with
+                    | none => simp [hvA, raise] at hok
+                    | some d =>
+                      simp only [hvA] at hok hv ⊢
+                      have hB := ih (.ih k) false rA.w hIA gA.wf gA.ghost
+                      generalize exec sc f (.load (.ih k) false) rA.w = rB at hok hv hB ⊢
+                      by_cases hB1 : rB.out = .ok
+                      · simp only [hB1, if_true] at hok hv ⊢
+                        have := hB hB1 i (by simpa using hv)
+                        exact ⟨this.1, this.2.1⟩
+                      · simp [hB1] at hok
+                  · simp [hA1] at hok
+            · rename_i w' hr
+              split at hr
+              · cases hr
+              · split at hr
+                · cases hr
+                  have hfree' : ∀ i, i < (lookupC (lookupC w.c { base := .ih k, num := none }).1 { base := .bp k, num := none }).1.n →
+                      ((lookupC (lookupC w.c { base := .ih k, num := none }).1 { base := .bp k, num := none }).1.objs i).destructed = false →
+                      ((lookupC (lookupC w.c { base := .ih k, num := none }).1 { base := .bp k, num := none }).1.objs i).name ≠ { base := .ih k, num := none } := by
+                    intro i hi hd
+                    rw [hnB.1, hn0.1] at hi
+                    rw [hnB.2, hn0.2] at hd ⊢
+                    exact hfree i hi hd
+                  have hA := nfle_alloc (cl := false) (nm := { base := .ih k, num := none }) hlB hfree'
+                  have hAI := alloc_inv (cl := false) (nm := { base := .ih k, num := none }) hlB hfree' (by simp)
+                  have hAe := alloc_eq (cl := false) (nm := { base := .ih k, num := none }) hlB hfree'
+                  intro hok i hv
+                  have g1 := exec_good sc f (.hook (alloc (lookupC (lookupC w.c { base := .ih k, num := none }).1 { base := .bp k, num := none }).1 { base := .ih k, num := none } false).2 .create none)
+                    { w with c := (alloc (lookupC (lookupC w.c { base := .ih k, num := none }).1 { base := .bp k, num := none }).1 { base := .ih k, num := none } false).1, ldepth := w.ldepth + 1 } (by exact hAI) ⟨hA.2, by intro y h; cases h⟩
+                    (fun g hgg => hA.1 g (hwf2 g hgg)) (by exact hg)
+                  generalize exec sc f (.hook (alloc (lookupC (lookupC w.c { base := .ih k, num := none }).1 { base := .bp k, num := none }).1 { base := .ih k, num := none } false).2 .create none)
+                    { w with c := (alloc (lookupC (lookupC w.c { base := .ih k, num := none }).1 { base := .bp k, num := none }).1 { base := .ih k, num := none } false).1, ldepth := w.ldepth + 1 } = r1 at hok hv g1 ⊢
+                  simp only [R.andThen] at hok hv ⊢
+                  by_cases h1 : r1.out = .ok
+                  · simp only [h1, if_true] at hok hv ⊢
+                    simp at hv
+                    subst hv
+                    refine ⟨(g1.le.nf _ hA.2).1, ?_⟩
+                    show (r1.w.c.objs (alloc (lookupC (lookupC w.c { base := .ih k, num := none }).1 { base := .bp k, num := none }).1 { base := .ih k, num := none } false).2).name = _
+                    rw [g1.le.name _ hA.2.1]
+                    rw [hAe]; simp [allocCore]
+                  · simp [h1] at hok
+                · cases hr
+
+/-- **load_returns_registered** (the oracle clause `load-find-disagree`, seeded change C08-5, as a theorem).  When
+    find_or_load_object(name) returns an object, that object is the one the name table holds under `name`:
+    find_object(name) and load_object(name) agree - for every history of re-entrant loads. -/
+theorem load_returns_registered (sc : Scripts) (f : Nat) (b : Base) (w : World) (hI : WorldInv w.c) (hwf : WorldWf w)
+    (hg : w.initBad = false) (hok : (exec sc f (.load b true) w).out = .ok) (i : Nat)
+    (hv : (exec sc f (.load b true) w).val = some i) :
+    absMap (exec sc f (.load b true) w).w.c { base := b, num := none } = some i := by
+  have h := load_val_named sc f b true w hI hwf hg hok i hv
+  exact (absMap_spec (exec_inv sc f (.load b true) w hI) _ i).mpr ⟨h.1, h.2.2 rfl, h.2.1⟩
+
 /-! ## non-vacuity: the hypotheses are met by non-trivial states -/
 
 theorem init_eq : Core.init =
@@ -495,5 +788,13 @@ example (cmds : List Cmd) :
 example (sc : Scripts) : (exec sc 1 (.objloop 1 [] [0, 1]) World.init).out = .ok ∧
     (exec sc 1 (.objloop 1 [] [0, 1]) World.init).val ≠ none := by
   simp [exec]
+
+/-- `load_returns_registered` is not vacuous: loading the master's name in the initial state returns object 1 -/
+example (sc : Scripts) : (exec sc 1 (.load .master true) World.init).out = .ok ∧
+    (exec sc 1 (.load .master true) World.init).val = some 1 := by
+  have h1 : (lookupC World.init.c { base := .master, num := none }).2 = some 1 :=
+    (lookupC_spec init_inv _ 1).mpr (by show _ ∧ _ ∧ _; rw [init_eq]; simp [allocCore, Core.empty])
+  have h2 := anyFreed_ot (c := World.init.c) init_inv (hashN { base := .master, num := none })
+  simp [exec, h1, h2]
 
 end NV.C08
